@@ -17,6 +17,10 @@ let rec parse_tree (s : string) (i : int) : resp * int =
   match s.[i] with
   | 'n' -> (RBulk None, i + 1)
   | 'N' -> (RArr [], i + 1)      (* an array message whose array was never set: serialised as the empty array *)
+  | 'u' ->                       (* a message of none of the five types (type value < 128): at top level the server answers with the serializer's error text *)
+    let j = String.index_from s i ')' in
+    let tb = bytes_of_hex (String.sub s (i + 2) (j - i - 2)) in
+    (RError (bytes_of_string "unknown message type (" @ tb @ bytes_of_string ")"), j + 1)
   | ('s' | 'e' | 'i' | 'b') as c ->
     let j = String.index_from s i ')' in
     let payload = bytes_of_hex (String.sub s (i + 2) (j - i - 2)) in
